@@ -3101,6 +3101,23 @@ async fn perform_tcp_binding_check(
     }
 }
 
+/// H8: the crate-private ICE server URI parser, for the conformance harness:
+/// returns (kind "stun"|"turn", host, port, transport "udp"|"tcp").
+#[cfg(rustrtc_verif)]
+pub fn verif_parse_ice_server_uri(input: &str) -> Result<(String, String, u16, String)> {
+    let uri = IceServerUri::parse(input)?;
+    let kind = match uri.kind {
+        IceUriKind::Stun => "stun",
+        IceUriKind::Turn => "turn",
+    };
+    Ok((
+        kind.to_string(),
+        uri.host.clone(),
+        uri.port,
+        uri.transport.as_str().to_string(),
+    ))
+}
+
 /// Verification accessors (compiled only with `--cfg rustrtc_verif`).
 #[cfg(rustrtc_verif)]
 impl IceTransport {
